@@ -22,9 +22,10 @@ def parseUpCfg (s : String) : UpCfg :=
     | ["neg", p] => { c with negotiate := some (parseCfg14 (p.replace ";" ",")) }
     | ["ext", ps] => { c with extension := some ((ps.splitOn "|").map hexOr) }
     | ["hdr", h] => { c with header := hexOr h }
-    | ["onreq", a, b, d] => { c with onRequest := some (parseRej [a, b, d]) }
-    | ["onhost", a, b, d] => { c with onHost := some (parseRej [a, b, d]) }
-    | ["onhdr", k, a, b, d] => { c with onHeaderKey := hexOr k, onHeader := some (parseRej [a, b, d]) }
+    -- code "ok": the callback is installed and accepts (for the model: no rejection)
+    | ["onreq", a, b, d] => if a == "ok" then c else { c with onRequest := some (parseRej [a, b, d]) }
+    | ["onhost", a, b, d] => if a == "ok" then c else { c with onHost := some (parseRej [a, b, d]) }
+    | ["onhdr", k, a, b, d] => if a == "ok" then c else { c with onHeaderKey := hexOr k, onHeader := some (parseRej [a, b, d]) }
     | ["before", "h", h] => { c with onBeforeUpgrade := some (.inl (hexOr h)) }
     | ["before", "r", a, b, d] => { c with onBeforeUpgrade := some (.inr (parseRej [a, b, d])) }
     | _ => c) {}
